@@ -4,6 +4,7 @@ package inmem
 
 import (
 	"context"
+	"time"
 
 	"github.com/acquirecloud/golibs/errors"
 	"github.com/acquirecloud/golibs/kvs"
@@ -115,25 +116,41 @@ func zzC07Inmem() {
 	W := vParam("W")
 	for i := 0; i < W; i++ {
 		w := &zzWaiter{key: h.keys[vChoose("wkey", len(h.keys))], ctx: zzNewCtx(), finished: make(chan struct{})}
-		switch vChoose("wver", 3) {
-		case 0:
-			w.ver = h.version[w.key] // current (or "" if absent)
-		case 1:
-			w.ver = "stale-version"
-		case 2:
-			w.ver = ""
-		}
 		h.ws = append(h.ws, w)
 	}
 	started := 0
 	S := vParam("S")
+	// SCRIPT != 0: a fixed script, one decimal digit (operation+1) per action, most significant first
+	var fixed []int
+	for sc := vParam("SCRIPT"); sc > 0; sc /= 10 {
+		fixed = append([]int{sc%10 - 1}, fixed...)
+	}
+	if len(fixed) > 0 {
+		S = len(fixed)
+	}
 	for step := 0; step < S; step++ {
-		op := vChoose("op", 7)
+		var op int
+		if len(fixed) > 0 {
+			op = fixed[step]
+		} else {
+			op = vChoose("op", 7)
+			if (vParam("OPMASK")>>uint(op))&1 == 0 {
+				vAssume(false) // operation not in this entry's alphabet
+			}
+		}
 		switch op {
 		case 0: // start the next waiter
 			vAssume(started < W)
 			w := h.ws[started]
 			started++
+			switch vChoose("wver", 3) {
+			case 0:
+				w.ver = h.version[w.key] // the current version at the time of the call ("" if absent)
+			case 1:
+				w.ver = "stale-version"
+			case 2:
+				w.ver = ""
+			}
 			w.started = true
 			h.mark()
 			vSpawn("waiter", func() {
@@ -198,6 +215,9 @@ func zzC07Inmem() {
 			}
 		}
 		h.invariant()
+		if vParam("YIELD") == 1 {
+			vYield() // cooperative: the other goroutines may run here without spending the preemption budget
+		}
 	}
 	vReach("script-done")
 	// quiescence: every waiter whose condition holds must return (a lost wake-up shows as a deadlock here);
@@ -247,5 +267,67 @@ func zzC07Inmem() {
 	vReach("all-returned")
 	s.lock.Lock()
 	vAssert(len(s.verChange) == 0, "waiter bookkeeping left behind after all waiters are gone")
+	s.lock.Unlock()
+}
+
+// C06 (waiter part): a WaitForVersionChange parked on a record whose expiration passes ends with ErrNotExist
+// as soon as any operation touches the key (the in-memory backend expires lazily).
+func zzC06Waiter() {
+	st := New()
+	s := st.(*service)
+	bg := context.Background()
+	t0 := time.Now()
+	off := vInt64("expOff")
+	vAssume(off >= 1 && off <= 1<<40)
+	exp := t0.Add(time.Duration(off))
+	r, err := st.Put(bg, kvs.Record{Key: "a", Value: []byte{1}, ExpiresAt: &exp})
+	vAssert(err == nil, "Put failed")
+	vGuardedBy(s.recs, &s.lock)
+	vGuardedBy(s.verChange, &s.lock)
+	w := &zzWaiter{key: "a", ver: r.Version, ctx: zzNewCtx(), finished: make(chan struct{})}
+	vSpawn("waiter", func() {
+		w.err = st.WaitForVersionChange(w.ctx, w.key, w.ver)
+		close(w.finished)
+	})
+	// some operation touches the key; if it finds the record expired the waiter must be released
+	sawGone := false
+	recreated := false
+	switch vChoose("touch", 6) {
+	case 0:
+		_, e := st.Get(bg, "a")
+		sawGone = zzIsErr(e, errors.ErrNotExist)
+	case 1:
+		res, e := st.GetMany(bg, "b", "a")
+		sawGone = e == nil && res[1] == nil
+	case 2:
+		_, e := st.CasByVersion(bg, kvs.Record{Key: "a", Version: "stale-version"})
+		sawGone = zzIsErr(e, errors.ErrNotExist)
+	case 3:
+		e := st.Delete(bg, "a")
+		sawGone = true // deleted now or found expired: absent either way
+		_ = e
+	case 4:
+		_, e := st.Create(bg, kvs.Record{Key: "a", Value: []byte{2}})
+		sawGone = e == nil
+		recreated = e == nil
+	case 5:
+		it, e := st.ListKeys(bg, "*")
+		vAssert(e == nil, "ListKeys failed")
+		sawGone = !it.HasNext()
+	}
+	vReach("touched")
+	if sawGone {
+		<-w.finished // a lost notification shows as a deadlock here
+		if recreated {
+			vAssert(w.err == nil || zzIsErr(w.err, errors.ErrNotExist), "waiter result after the expired record was replaced")
+		} else {
+			vAssert(zzIsErr(w.err, errors.ErrNotExist), "a waiter on an expired (hence deleted) record did not end with ErrNotExist")
+		}
+		vReach("released")
+	}
+	w.ctx.cancel()
+	<-w.finished
+	s.lock.Lock()
+	vAssert(len(s.verChange) == 0, "waiter bookkeeping left behind")
 	s.lock.Unlock()
 }
